@@ -3157,7 +3157,7 @@ def _new_display(pe, st, args, t):
 
 @pmodel("core::fmt::rt::Argument::<'_>::new_lower_hex")
 def _new_lower_hex(pe, st, args, t):
-    return ("fmtarg", _deref(pe, st, args[0]), "x")
+    return ("fmtarg", _deref_all(pe, st, args[0]), "x")  # `{:x}` of a `&u8` formats the byte
 
 
 @pmodel("std::fmt::Arguments::<'a>::new")
